@@ -35,6 +35,17 @@ P_SORTED = world.profile(party={"greedy": 1}, evse_kinds={"finite": 1}, constrai
 
 def gen(rs, tier):
     sc = world.gen_world(rs, P_SORTED if rs % 3 == 0 else P_SCRIPT)
+    r = sub(rs, "overdue")
+    if sc["party"].get("sort") in ("edf", "llf") and r.random() < 0.6:
+        # drivers stay longer than they said: estimated departures well before the real ones, all different
+        used = set()
+        for s_ in sc["sessions"]:
+            stay = s_["departure"] - s_["arrival"]
+            e_ = s_["arrival"] + max(1, stay // r.choice([2, 3, 4]))
+            while e_ in used:
+                e_ += 1
+            used.add(e_)
+            s_["est_departure"] = e_
     sc["party"]["quiet_prefix"] = True
     sc["network"]["violation_tolerance"] = 1e-5
     sc["network"]["relative_tolerance"] = 1e-7
